@@ -23,7 +23,12 @@ func HarnessC17() {
 	if zzvrt.Param("REF", 1) == 1 {
 		viaRef = zzvrt.Bool()
 	}
-	src, rootType, err := zzGenerate(pt, required, viaRef, Config{ExtraImports: true})
+	cfg := Config{ExtraImports: true}
+	if zzvrt.Param("TAGSETS", 1) == 1 && zzvrt.Bool() {
+		// the YAML method binds by key name, not by the yaml tag: it must be there without it too
+		cfg.Tags = []string{"json", "mapstructure"}
+	}
+	src, rootType, err := zzGenerate(pt, required, viaRef, cfg)
 	if err != nil {
 		zzvrt.Note("generator error: " + err.Error())
 		zzvrt.Check("C17.valid-schema-generates", false)
